@@ -1131,11 +1131,44 @@ func (ev *Evaluator) instr(fr *frame, ins ssa.Instruction, st *State) {
 		case *Ptr: // slicing an array
 			if root, ok := st.mem[p.Obj]; ok && len(p.Path) == 0 {
 				if a, ok := root.(*Agg); ok {
-					fr.env[x] = &SliceV{Arr: p.Obj, Len: len(a.Elems)}
+					lo, hi, known := 0, len(a.Elems), true
+					if x.Low != nil {
+						if t, ok := fr.get(ev, x.Low).(*Term); ok && t.Op == "c" && t.C.IsInt() {
+							lo = int(t.C.Num().Int64())
+						} else {
+							known = false
+						}
+					}
+					if x.High != nil {
+						if t, ok := fr.get(ev, x.High).(*Term); ok && t.Op == "c" && t.C.IsInt() {
+							hi = int(t.C.Num().Int64())
+						} else {
+							known = false
+						}
+					}
+					if known && lo >= 0 && hi >= lo && hi <= len(a.Elems) {
+						fr.env[x] = &SliceV{Arr: p.Obj, Lo: lo, Len: hi - lo}
+						return
+					}
+					if x.Low == nil && x.High == nil {
+						fr.env[x] = &SliceV{Arr: p.Obj, Len: len(a.Elems)}
+						return
+					}
+					fr.env[x] = &SliceV{Len: -1, Sym: &Sym{Path: valKey(p) + "[a:b]", T: x.Type()}}
 					return
 				}
 			}
-			fr.env[x] = &SliceV{Len: -1, Sym: &Sym{Path: valKey(p) + "[:]", T: x.Type()}}
+			// an array inside an object (d.F[k:]): the elements of the field, shifted by a
+			// constant lower bound; an unknown lower bound gives an unrelated window
+			sl := &SliceV{Len: -1, Sym: &Sym{Path: valKey(p) + "[:]", T: x.Type()}}
+			if x.Low != nil {
+				if t, ok := fr.get(ev, x.Low).(*Term); ok && t.Op == "c" && t.C.IsInt() {
+					sl.Lo = int(t.C.Num().Int64())
+				} else {
+					sl.Sym = &Sym{Path: valKey(p) + "[" + valKey(fr.get(ev, x.Low)) + ":]", T: x.Type()}
+				}
+			}
+			fr.env[x] = sl
 		case *SliceV:
 			lo, hi := 0, p.Len
 			if x.Low != nil {
@@ -1309,6 +1342,22 @@ func (ev *Evaluator) doCall(fr *frame, c *ssa.CallCommon, site ssa.Value, st *St
 			return ev.callFn(f.Fn, args, f.Free, st, site)
 		}
 		return ev.builtin(f.Name, args, c, st, site)
+	case *Alt:
+		// a function value chosen by a test (`load := a; if c { load = b }; load(x)`): both calls
+		// are made, each under its condition, and the results and states are merged
+		fa, okA := f.A.(*FuncV)
+		fb, okB := f.B.(*FuncV)
+		if okA && okB && fa.Fn != nil && fb.Fn != nil {
+			outer := ev.curCond
+			stA, stB := st.clone(), st.clone()
+			ev.curCond = cAnd(outer, f.C)
+			ra := ev.callFn(fa.Fn, args, fa.Free, &stA, site)
+			ev.curCond = cAnd(outer, Not(f.C))
+			rb := ev.callFn(fb.Fn, args, fb.Free, &stB, site)
+			ev.curCond = outer
+			*st = iteState(f.C, stA, stB)
+			return iteVal(f.C, ra, rb)
+		}
 	case *Sym:
 		// function-typed field (MinFunc etc.)
 		named := f.T.String()
